@@ -175,8 +175,11 @@ std::string step_event(char const *kind, int rc)
       s += esc(c->name) + ":{\"x\":" + val(c->value());
       s += ",\"xa\":" + val(c->actual_value());
       s += ",\"on\":" + std::string(c->is_enabled() ? "1" : "0");
-      if (c->is_enabled(colvardeps::f_cv_fdiff_velocity)) s += ",\"v\":" + val(c->velocity());
-      if (c->is_enabled(colvardeps::f_cv_total_force)) s += ",\"ft\":" + val(c->total_force());
+      // an extended-Lagrangian variable carries the velocity and the force of its extended coordinate whether or not
+      // they are requested as outputs
+      bool const xl = c->is_enabled(colvardeps::f_cv_extended_Lagrangian);
+      if (xl || c->is_enabled(colvardeps::f_cv_fdiff_velocity)) s += ",\"v\":" + val(c->velocity());
+      if (xl || c->is_enabled(colvardeps::f_cv_total_force)) s += ",\"ft\":" + val(c->total_force());
       s += ",\"fa\":" + val(c->applied_force());
       if (c->is_enabled(colvardeps::f_cv_extended_Lagrangian)) {
         s += ",\"ext\":" + colvars_verif_access::ext_json(c);
